@@ -13,7 +13,18 @@ FUNCS = ['androguard.core.dex.DEX.__init__/_load', 'MapList', 'ClassManager', 'S
          'DEX.get_classes/get_class/get_encoded_method_descriptor/get_encoded_field_descriptor']
 
 
-def skeleton():
+def skeleton_nocode():
+    """a file in which no method has code (interface + abstract class with abstract / native methods): no code items at all"""
+    I = Cls('LI;', access=0x601, superclass='Ljava/lang/Object;', vmethods=[Mth('run', 'V', (), 0x401, None)])
+    A = Cls('LA;', access=0x401, interfaces=('LI;',), source='A.java', sfields=[Fld('a1', 'I', 0x9)], ifields=[Fld('a2', 'J', 0x2)],
+            dmethods=[Mth('nat', 'I', ('I', 'J'), 0x109, None)],
+            vmethods=[Mth('abs', 'V', (), 0x401, None), Mth('v', 'I', ('I', 'J'), 0x401, None)])
+    return dexasm.assemble([I, A])
+
+
+def skeleton(variant='code'):
+    if variant == 'nocode':
+        return skeleton_nocode()
     rv = lambda P: [0x000e]
     r0 = lambda P: [0x0012, 0x0011]        # const/4 v0,0 ; return-object v0
     ri = lambda P: [0x0012, 0x000f]
@@ -31,9 +42,15 @@ def skeleton():
     return dexasm.assemble([I, A, B])
 
 
-def groups(blob, P, L):
+def groups(blob, P, L, variant='code'):
     """name -> list of (offset, nbytes, constraint builder) fields to make symbolic"""
     nS, nT, nP, nF, nM = len(P.s_list), len(P.t_list), len(P.p_list), len(P.f_list), len(P.m_list)
+    if variant == 'nocode':
+        cA = L.class_def_off['LA;']
+        mv = L.sections['method_ids'] + 8 * P.m_idx[('LA;', 'v', 'I', ('I', 'J'))]
+        lt = lambda n: (lambda e: e < n)
+        return {'nocode:class_def': [(cA + 0, 4, lt(nT)), (cA + 4, 4, None), (cA + 8, 4, lambda e: z3.Or(e < nT, e == 0xffffffff))],
+                'nocode:method_id': [(mv + 0, 2, lt(nT)), (mv + 2, 2, lt(nP)), (mv + 4, 4, lt(nS))]}
     cB = L.class_def_off['LB;']
     tI = L.sections['type_ids'] + 4 * P.t_idx['LI;']
     mv = L.sections['method_ids'] + 8 * P.m_idx[('LA;', 'v', 'I', ('I', 'J'))]
@@ -86,12 +103,13 @@ def lookups(d, ref_classes):
 
 def job(jc, gname):
     dex = common.dexmod()
-    blob, P, L = skeleton()
+    variant = 'nocode' if gname.startswith('nocode:') else 'code'
+    blob, P, L = skeleton(variant)
     hook.ZL.value = int.from_bytes(blob[8:12], 'little')
     items = list(blob)
     pre = []
     sym = []
-    for off, n, cons in groups(blob, P, L)[gname]:
+    for off, n, cons in groups(blob, P, L, variant)[gname]:
         bs = [fresh_byte('g%d_%d' % (off, k)) for k in range(n)]
         items[off:off + n] = bs
         e = z3.BitVecVal(0, W)
@@ -135,8 +153,11 @@ def run(ctx):
     common.dexmod()
     blob, P, L = skeleton()
     G = groups(blob, P, L)
+    blob2, P2, L2 = skeleton('nocode')
+    G.update(groups(blob2, P2, L2, 'nocode'))
     ctx.functions_encoded = FUNCS
-    ctx.bounds = dict(skeleton='3 classes (interface, class with covariant method pair / abstract+native methods / array field, subclass), '
+    ctx.bounds = dict(second_skeleton='interface + abstract class whose methods are all abstract / native: a file without any code item (groups nocode:*)',
+                      skeleton='3 classes (interface, class with covariant method pair / abstract+native methods / array field, subclass), '
                                '%d strings, %d types, %d protos, %d fields, %d methods' % (len(P.s_list), len(P.t_list), len(P.p_list), len(P.f_list), len(P.m_list)),
                       groups={g: '%d symbolic bytes' % sum(n for _, n, _ in G[g]) for g in G},
                       one_group_at_a_time=True)
@@ -145,7 +166,7 @@ def run(ctx):
                        'reference = independent reader of the same bytes (vf/dexref.py); table-selecting values are proved to be '
                        'pinned by the path condition, pass-through values are compared as terms']
     ctx.outside_claim = ['interaction between field groups', 'files larger than the skeleton', 'annotations, debug info, static values']
-    ctx.diff_unhooked(sys.modules[__name__], [blob.hex()])
+    ctx.diff_unhooked(sys.modules[__name__], [blob.hex(), blob2.hex()])
     ctx.expect_reach(list(G))
     ctx.pmap(job, list(G))
 
